@@ -185,7 +185,33 @@ def run_impl(c):
     t = imp.dump_tables(db.conn)
     def answer(qlist):
       out = []
-      for q in qlist:
+      # every ordered query's iterator is requested first and consumed later, in reverse order: an iterator belongs to the
+      # call that made it, whatever other queries the same object answers in between
+      pending = {}
+      for qi, q in enumerate(qlist):
+          if q["q"] == "ord" and len(pending) < 6 and qi % 3 == 0:
+              try:
+                  ob = None
+                  if q["form"] == "str":
+                      ob = q["keys"][0]
+                  elif q["form"] == "tuple":
+                      ob = tuple(q["keys"])
+                  elif q["form"] == "list":
+                      ob = list(q["keys"])
+                  kw = dict(strand=q["strand"], order_by=ob, reverse=q["reverse"])
+                  pending[qi] = db.all_features(featuretype=q["ft"], **kw) if q["api"] == "all" else db.features_of_type(q["ft"], **kw)
+              except Exception:
+                  pass
+      early = {}
+      for qi in sorted(pending, reverse=True):
+          try:
+              early[qi] = ["ok", [f.id for f in pending[qi]]]
+          except Exception as ex:
+              early[qi] = ["err", L.err_class(ex)]
+      for qi, q in enumerate(qlist):
+        if qi in early:
+            out.append(early[qi])
+            continue
         try:
             if q["q"] == "ord":
                 ob = None
